@@ -1,7 +1,8 @@
 #!/bin/bash
-# tools/wave.sh <suffix>: for every /tmp/mut/<P>.<suffix>/<k>: confirm in the scratch worktree, then run <P>'s quick check against the patch.
-SUF="$1"
-for P in C04 C05 C06 C07 C08 C09 C13 C14 C15 C16 C18 C20; do
+# tools/wave.sh <suffix> [props...]: for every /tmp/mut/<P>.<suffix>/<k>: confirm in the scratch worktree, then run <P>'s quick check against the patch.
+SUF="$1"; shift
+PROPS="$*"; [ -z "$PROPS" ] && PROPS="C04 C05 C06 C07 C08 C09 C13 C14 C15 C16 C18 C20"
+for P in $PROPS; do
   for D in /tmp/mut/$P.$SUF/*/; do
     D=${D%/}
     [ -f "$D/patch.diff" ] || continue
